@@ -268,4 +268,13 @@ def shard(prop, tier, seed, shard, nshards):
         complete = complete and c
     acc.extra["enumerated_schedule_runs"] = runs
     acc.extra["enumeration_complete"] = complete
+    # long runs (DESIGN 10.7 round 5): the complete variant set once per long scenario with until <= 200
+    for k, (name, scn) in enumerate(sorted(gen.long_scenarios().items())):
+        if scn["until"] > 200 or (k + 9) % nshards != shard:
+            continue
+        for f in check_case({"scenario": copy.deepcopy(scn), "variants": {
+                "picks": [1, 2, 0, 1, 2, 2, 1, 0], "starve": scn["sims"][1]["sid"], "perm": [1, 0, 2, 3],
+                "mixed": [1, 0]}}, acc):
+            if len(acc.failures) < 20:
+                acc.failures.append(f)
     return acc
